@@ -516,6 +516,54 @@ def call_sites(ctx):
     return n_sites
 
 
+def field_shapes(ctx):
+    """The array shapes assumed for the kernel parameters (sa/stencil/
+    kernels.py) are those of Field.fx/fy/fz and BaseMesh."""
+    from ..core.template import has
+    me = ctx.repo.mod('emg3d/meshes.py')
+    init = me.method('BaseMesh', '__init__')
+    want = {'edges_x': ('cells', 'nodes', 'nodes'),
+            'edges_y': ('nodes', 'cells', 'nodes'),
+            'edges_z': ('nodes', 'nodes', 'cells'),
+            'faces_x': ('nodes', 'cells', 'cells'),
+            'faces_y': ('cells', 'nodes', 'cells'),
+            'faces_z': ('cells', 'cells', 'nodes')}
+    from ..core.template import find
+    nn = find('_n_ = (self.h[0].size + 1, self.h[1].size + 1, '
+              'self.h[2].size + 1)', init)
+    cc = find('_c_ = (self.h[0].size, self.h[1].size, self.h[2].size)', init)
+    ctx.anchor(len(nn) == 1 and len(cc) == 1, 'node / cell count tuples in '
+               'BaseMesh.__init__')
+    nm = {'nodes': nn[0][1]['_n_'], 'cells': cc[0][1]['_c_']}
+    for k, kinds in want.items():
+        pat = 'self.shape_' + k + ' = (' + ', '.join(
+            f'{nm[kd]}[{i}]' for i, kd in enumerate(kinds)) + ')'
+        ctx.check('C02.O5.shapes', f'BaseMesh.shape_{k}', has(pat, init),
+                  f'shape of {k} is not ({", ".join(kinds)}): the staggered '
+                  'location of this component changed', ctx.where(me, init))
+    ctx.check('C02.O5.shapes', 'BaseMesh node/cell counts',
+              has('_n_ = (self.h[0].size + 1, self.h[1].size + 1, '
+                  'self.h[2].size + 1)', init) and
+              has('_c_ = (self.h[0].size, self.h[1].size, self.h[2].size)',
+                  init), 'nodes = cells + 1 does not hold',
+              ctx.where(me, init))
+    fm = ctx.repo.mod('emg3d/fields.py')
+    for comp, sl in (('fx', 'self._field[:_i_]'),
+                     ('fy', 'self._field[_i_:-_j_]'),
+                     ('fz', 'self._field[-_i_:]')):
+        g = [m for m in fm.methods('Field', comp)
+             if 'property' in au.decorator_names(m)][0]
+        ok = has(f"return {sl}.reshape(_s_, order='F')", g) and has(
+            f"_s_ = self._get_prop('shape', '{comp[1]}')", g)
+        ctx.check('C02.O5.shapes', f'Field.{comp} view', ok,
+                  f'{comp} is not the F-ordered view of its part of the '
+                  'field vector with the component shape', ctx.where(fm, g))
+    gp = fm.method('Field', '_get_prop')
+    ctx.check('C02.O5.shapes', 'Field._get_prop: edges for electric fields',
+              has("_n_ += 'edges' if self.electric else 'faces'", gp),
+              'electric fields do not live on edges', ctx.where(fm, gp))
+
+
 def run(ctx):
     ctx.explanation = (
         'amat_x is abstractly interpreted (loop body once per boundary case, '
@@ -532,5 +580,6 @@ def run(ctx):
     it, names, ref, interior = operator_rows(ctx)
     coefficients(ctx)
     call_sites(ctx)
+    field_shapes(ctx)
     if ctx.tier == 'thorough':
         thorough_operator(ctx, names, ref, interior)
